@@ -17,6 +17,7 @@ import SwV.Model.C11
 import SwV.Spec.C12
 import SwV.Lemmas.C12
 import SwV.Lemmas.C12Ec
+import SwV.Gen.C12
 namespace SwV.Props.C12
 open SwV.Model.C11 SwV.Spec.C12 SwV.Lemmas.C12 SwV.Lemmas.C12Ec
 
@@ -1050,5 +1051,128 @@ example : OpsOk (init 1000 false 12) 4
      .inc 1 [⟨3, 0, false, false, ⟨0, 1, 0, 0⟩⟩] [], .ecinc 1 [⟨5, 0, 0, 7⟩] [⟨5, 0, 0, 2⟩], .refresh, .disc 0] := by
   simp only [OpsOk, OpOk, DelsOk, List.mem_cons, List.mem_append, List.not_mem_nil, or_false, forall_eq, forall_eq_or_imp, implies_true, and_true]
   decide
+
+/-! ## T1 bridges: facts regenerated from the source by `extract` (props/C12/extract.json → `SwV.Gen.C12`)
+
+Each theorem states the text of the decisive Go statements as they stand in the working tree together with the
+model expression that mirrors them; an edit to the Go code changes the generated string and breaks the theorem
+of that name. -/
+
+/-- `DiskUsageCounts.addDiskUsageCounts` and `DiskUsages.negative` are field-wise (`Counts.add`, `Counts.neg`;
+    `activeVolumeCount` is not modelled). -/
+theorem bridge_counts_add_neg :
+    SwV.Gen.C12.add_vol = "a.volumeCount += b.volumeCount" ∧
+    SwV.Gen.C12.add_rem = "a.remoteVolumeCount += b.remoteVolumeCount" ∧
+    SwV.Gen.C12.add_ec = "a.ecShardCount += b.ecShardCount" ∧
+    SwV.Gen.C12.add_max = "a.maxVolumeCount += b.maxVolumeCount" ∧
+    SwV.Gen.C12.neg_vol = "a.volumeCount = -b.volumeCount" ∧
+    SwV.Gen.C12.neg_rem = "a.remoteVolumeCount = -b.remoteVolumeCount" ∧
+    SwV.Gen.C12.neg_ec = "a.ecShardCount = -b.ecShardCount" ∧
+    SwV.Gen.C12.neg_max = "a.maxVolumeCount = -b.maxVolumeCount" ∧
+    (∀ a b : Counts, a.add b = { vol := a.vol + b.vol, rem := a.rem + b.rem, ec := a.ec + b.ec, max := a.max + b.max }) ∧
+    (∀ b : Counts, b.neg = { vol := -b.vol, rem := -b.rem, ec := -b.ec, max := -b.max }) :=
+  ⟨by decide, by decide, by decide, by decide, by decide, by decide, by decide, by decide, fun _ _ => rfl, fun _ => rfl⟩
+
+/-- `NodeImpl.UpAdjustDiskUsageDelta`: every level adds the SAME delta and hands it to its parent (`upAdj`,
+    `nodeUp`); link / unlink apply the child's usages resp. their negative. -/
+theorem bridge_up_adjust :
+    SwV.Gen.C12.up_adds = "diskUsage" ∧ SwV.Gen.C12.up_has_parent = "n.parent != nil" ∧
+    SwV.Gen.C12.up_passes_same_delta = "deltaDiskUsages" ∧
+    SwV.Gen.C12.link_cond = "n.children[node.Id()] == nil" ∧ SwV.Gen.C12.link_delta = "node.GetDiskUsages()" ∧
+    SwV.Gen.C12.unlink_cond = "node != nil" ∧ SwV.Gen.C12.unlink_delta = "node.GetDiskUsages().negative()" ∧
+    (∀ (c : Core) (s t : Nat) (d : Counts),
+      (c.upAdj s t d).cDisk s t = (c.cDisk s t).add d ∧ (c.upAdj s t d).cNode s t = (c.cNode s t).add d ∧
+      (c.upAdj s t d).cRack (c.dcOf s) (c.rackOf s) t = (c.cRack (c.dcOf s) (c.rackOf s) t).add d ∧
+      (c.upAdj s t d).cDc (c.dcOf s) t = (c.cDc (c.dcOf s) t).add d ∧
+      (c.upAdj s t d).cTopo t = (c.cTopo t).add d) := by
+  refine ⟨by decide, by decide, by decide, by decide, by decide, by decide, by decide, fun c s t d => ?_⟩
+  simp [Core.upAdj, Core.nodeUp, upd1, upd2, upd3]
+
+/-- `Disk.doAddOrUpdateVolume` -/
+theorem bridge_add_or_update :
+    SwV.Gen.C12.addvol_new = "!ok" ∧ SwV.Gen.C12.addvol_vol = "deltaDiskUsage.volumeCount = 1" ∧
+    SwV.Gen.C12.addvol_new_remote = "v.IsRemote()" ∧
+    SwV.Gen.C12.addvol_new_remote_delta = "deltaDiskUsage.remoteVolumeCount = 1" ∧
+    SwV.Gen.C12.addvol_remote_changed = "oldV.IsRemote() != v.IsRemote()" ∧
+    SwV.Gen.C12.addvol_now_remote_delta = "deltaDiskUsage.remoteVolumeCount = 1" ∧
+    SwV.Gen.C12.addvol_was_remote = "oldV.IsRemote()" ∧
+    SwV.Gen.C12.addvol_was_remote_delta = "deltaDiskUsage.remoteVolumeCount = -1" ∧
+    SwV.Gen.C12.addvol_changed_ro = "isChangedRO = d.volumes[v.Id].ReadOnly != v.ReadOnly" ∧
+    -- a new volume: +1 volume, +1 remote if remote
+    (∀ (c : Core) (s : Nat) (v : VInfo), c.vols s v.key.disk v.id = none →
+      c.addOrUpdate s v =
+        (Core.upAdj { c with vols := upd3 c.vols s v.key.disk v.id (some v) } s v.key.disk
+           { vol := 1, rem := if v.remote then 1 else 0 }, true, false)) ∧
+    -- a known volume: the remote counter moves only when the flag changed, by +1 (now remote) or -1 (was remote)
+    (∀ (c : Core) (s : Nat) (v old : VInfo), c.vols s v.key.disk v.id = some old →
+      (c.addOrUpdate s v).2 = (false, old.ro != v.ro) ∧
+      (c.addOrUpdate s v).1.cDisk s v.key.disk =
+        (if old.remote != v.remote then (c.cDisk s v.key.disk).add { rem := if old.remote then -1 else 1 }
+         else c.cDisk s v.key.disk)) := by
+  refine ⟨by decide, by decide, by decide, by decide, by decide, by decide, by decide, by decide, by decide, ?_, ?_⟩
+  · intro c s v h
+    simp [Core.addOrUpdate, h, Core.b2i]
+  · intro c s v old h
+    simp only [Core.addOrUpdate, h]
+    cases ho : old.remote <;> cases hv : v.remote <;>
+      simp [Core.upAdj, Core.nodeUp, upd2, Core.b2i]
+
+/-- the deletions of `DataNode.UpdateVolumes` / `DeltaUpdateVolumes` (`delVol`): -1 volume, -1 remote if remote -/
+theorem bridge_delete_volume :
+    SwV.Gen.C12.upd_gone = "!ok" ∧ SwV.Gen.C12.upd_gone_vol = "deltaDiskUsage.volumeCount = -1" ∧
+    SwV.Gen.C12.upd_gone_remote = "v.IsRemote()" ∧
+    SwV.Gen.C12.upd_gone_remote_delta = "deltaDiskUsage.remoteVolumeCount = -1" ∧
+    SwV.Gen.C12.delta_del_vol = "deltaDiskUsage.volumeCount = -1" ∧
+    SwV.Gen.C12.delta_del_remote = "v.IsRemote()" ∧
+    SwV.Gen.C12.delta_del_remote_delta = "deltaDiskUsage.remoteVolumeCount = -1" ∧
+    (∀ (c : Core) (s t vid : Nat) (remote : Bool), c.delVol s t vid remote =
+      Core.upAdj { c with vols := upd3 c.vols s t vid none } s t { vol := -1, rem := if remote then -1 else 0 }) := by
+  refine ⟨by decide, by decide, by decide, by decide, by decide, by decide, by decide, fun c s t vid remote => ?_⟩
+  cases remote <;> simp [Core.delVol, Core.b2i]
+
+/-- `DataNode.AdjustMaxVolumeCounts` (`adjustMax1`) -/
+theorem bridge_adjust_max :
+    SwV.Gen.C12.max_zero_skip = "maxVolumeCount == 0" ∧
+    SwV.Gen.C12.max_same_skip = "currentDiskUsage.maxVolumeCount == int64(maxVolumeCount)" ∧
+    SwV.Gen.C12.max_delta = "deltaDiskUsage.maxVolumeCount = int64(maxVolumeCount) - currentDiskUsage.maxVolumeCount" ∧
+    (∀ (c : Core) (s t m : Nat), c.adjustMax1 s t m =
+      (if m = 0 then c else if (c.cNode s t).max = (m : Int) then c
+       else c.upAdj s t { max := (m : Int) - (c.cNode s t).max })) :=
+  ⟨by decide, by decide, by decide, fun _ _ _ _ => rfl⟩
+
+/-- `DataNode.UpdateEcShards`, `Disk.AddOrUpdateEcShard`, `Disk.DeleteEcShard`: the shard-count deltas -/
+theorem bridge_ec_counts :
+    SwV.Gen.C12.ec_gone = "!ok" ∧ SwV.Gen.C12.ec_gone_count = "deletedShardCount += ecShards.ShardIdCount()" ∧
+    SwV.Gen.C12.ec_more = "a.ShardIdCount() > 0" ∧ SwV.Gen.C12.ec_more_count = "newShardCount += a.ShardIdCount()" ∧
+    SwV.Gen.C12.ec_less = "d.ShardIdCount() > 0" ∧ SwV.Gen.C12.ec_less_count = "deletedShardCount += d.ShardIdCount()" ∧
+    SwV.Gen.C12.ec_delta_existing = "deltaDiskUsage.ecShardCount = int64(newShardCount - deletedShardCount)" ∧
+    SwV.Gen.C12.ec_known_skip = "dn.hasEcShards(ecShards.VolumeId)" ∧
+    SwV.Gen.C12.ec_delta_new = "deltaDiskUsage.ecShardCount = int64(ecShards.ShardIdCount())" ∧
+    SwV.Gen.C12.ec_store_cond = "len(newShards) > 0 || len(deletedShards) > 0" ∧
+    SwV.Gen.C12.ecadd_new = "!ok" ∧ SwV.Gen.C12.ecadd_new_delta = "delta = s.ShardBits.ShardIdCount()" ∧
+    SwV.Gen.C12.ecadd_plus = "existing.ShardBits = existing.ShardBits.Plus(s.ShardBits)" ∧
+    SwV.Gen.C12.ecadd_old_delta = "delta = existing.ShardBits.ShardIdCount() - oldCount" ∧
+    SwV.Gen.C12.ecadd_apply = "deltaDiskUsage.ecShardCount = int64(delta)" ∧
+    SwV.Gen.C12.ecdel_known = "ok" ∧
+    SwV.Gen.C12.ecdel_minus = "existing.ShardBits = existing.ShardBits.Minus(s.ShardBits)" ∧
+    SwV.Gen.C12.ecdel_delta = "delta := existing.ShardBits.ShardIdCount() - oldCount" ∧
+    SwV.Gen.C12.ecdel_drop_empty = "existing.ShardBits.ShardIdCount() == 0" := by decide
+
+/-- weakest supplement: hashes of the whole mirrored functions -/
+theorem bridge_pins :
+    SwV.Gen.C12.src_UpAdjustDiskUsageDelta = "004cbaf1c856040f" ∧
+    SwV.Gen.C12.src_addDiskUsageCounts = "26dfb5415ac6d7e9" ∧
+    SwV.Gen.C12.src_negative = "e9f92856e93cda2b" ∧
+    SwV.Gen.C12.src_doAddOrUpdateVolume = "6b540a4e1cc26df2" ∧
+    SwV.Gen.C12.src_UpdateVolumes = "27f7efacbefa0684" ∧
+    SwV.Gen.C12.src_DeltaUpdateVolumes = "e5ca4c58f5844fe7" ∧
+    SwV.Gen.C12.src_AdjustMaxVolumeCounts = "de287af7e03e24c1" ∧
+    SwV.Gen.C12.src_UpdateEcShards = "446c66596f37f067" ∧
+    SwV.Gen.C12.src_doUpdateEcShards = "dfb40d6ff9cb0fb9" ∧
+    SwV.Gen.C12.src_Disk_AddOrUpdateEcShard = "2ce4921c707fe3d8" ∧
+    SwV.Gen.C12.src_Disk_DeleteEcShard = "5e79fcda643184a1" ∧
+    SwV.Gen.C12.src_doLinkChildNode = "68809e04f9f160ea" ∧
+    SwV.Gen.C12.src_UnlinkChildNode = "2cd1e267fb9f2b9d" ∧
+    SwV.Gen.C12.src_GetOrCreateDataNode = "d5b94e23343a7c49" := by decide
 
 end SwV.Props.C12
